@@ -92,9 +92,39 @@ def prepare(workdir, used):
     return built, facts, sizes
 
 
+def selftest(c, good):
+    """converse binding: corrupt one recorded fact of an accepted Pkg event at a time; TLC must reject every variant"""
+    n = len(good["pkg1"])
+    vs = []
+    for name, f in (("change bit flipped", lambda e: e.update(exit=e["exit"] ^ 4)), ("incompatible bit flipped", lambda e: e.update(exit=e["exit"] ^ 8)),
+                    ("exit 0", lambda e: e.update(exit=0)),
+                    ("a removed binary not listed", lambda e: e.update(removed=e["removed"][1:]) if e["removed"] else e.update(added=e["added"] + [e["changedListed"][0]])),
+                    ("a compared binary listed as removed", lambda e: e.update(removed=e["removed"] + [e["changedListed"][0]])),
+                    ("a changed pair without report", lambda e: e.update(changedListed=e["changedListed"][1:])),
+                    ("reports out of order", lambda e: e.update(changedListed=list(reversed(e["changedListed"])))),
+                    ("a binary reported twice", lambda e: e.update(changedListed=e["changedListed"] + e["changedListed"][:1])),
+                    ("abnormal end", lambda e: e.update(ret="sig6"))):
+        e = json.loads(json.dumps(good))
+        f(e)
+        vs.append((name, e))
+    r = vf.tlc_validate("PkgDiffTrace.tla", "PkgDiffTrace.cfg", [e for nm, e in vs])
+    rejected = {i for (i, e, v) in r["bad"]}
+    missed = [nm for k, (nm, e) in enumerate(vs) if k + 1 not in rejected]
+    c.cov["trace_spec_selftest"] = {"corrupted_variants": len(vs), "rejected": len(vs) - len(missed)}
+    if missed:
+        vf.infra("PkgDiffTrace accepts corrupted Pkg events: %s" % missed)
+
+
 def main():
+    import time
     c = vf.Check("C30", "model_checking")
+    phase, t_last = {}, [time.time()]
+
+    def mark(name):
+        phase[name] = round(time.time() - t_last[0], 1)
+        t_last[0] = time.time()
     vf.build("hooks")
+    mark("build")
     fp = pk.fingerprints()
     mres, merr = [], []
 
@@ -116,8 +146,8 @@ def main():
         dirs = [LAYOUT_DIR["".join(x)] for x in cs["layout"]]
         cases.append({"src": "tlc", "bins": [0, 1, 2], "dirs": dirs, "pkg1": cs["pkg1"], "pkg2": cs["pkg2"]})
     if not c.thorough:
-        cases = c.rng.sample(cases, 1000)
-    nrand = 600 if c.thorough else 120
+        cases = c.rng.sample(cases, 800)
+    nrand = 600 if c.thorough else 100
     for k in range(nrand):
         n = c.rng.randint(4, 8)
         bins = sorted(c.rng.sample(range(len(POOL)), n))
@@ -127,7 +157,9 @@ def main():
         pick = lambda: "absent" if c.rng.random() < absent else c.rng.choice(VERS[1:])
         cases.append({"src": "random", "bins": bins, "dirs": [c.rng.choice(ds) for _ in bins], "pkg1": [pick() for _ in bins], "pkg2": [pick() for _ in bins]})
 
+    mark("generate")
     built, facts, sizes = prepare(c.workdir, set(i for cs in cases for i in cs["bins"]))
+    mark("binaries+facts")
     bits_match = all(facts[(b["sym"], v, w)] == MODEL_PAIRBITS(v, w) for b in POOL if (b["sym"], "v1", "v1") in facts for v in VERS[1:] for w in VERS[1:])
     c.cov["model_pairbits_match_abidiff"] = bits_match
     if not bits_match:
@@ -147,6 +179,8 @@ def main():
         k = min(outs)
         vf.infra("the report of %d runs was not understood by the projection (first: case %d)\n%s" % (nodd, k, outs[k][:1500]))
 
+    mark("campaign")
+
     def case_of(ev):
         cs = cases[ev["c"]]
         bins = [POOL[i] for i in cs["bins"]]
@@ -157,9 +191,25 @@ def main():
                     pl["%s-%s.c" % (b["sym"], x)] = pk.source(b["sym"], x, b["pad"])
         return pl
 
-    vf.pmap(lambda i: c.validate("PkgDiffTrace.tla", "PkgDiffTrace.cfg", events[i:i + 1500], case_of=case_of), range(0, len(events), 1500), jobs=4)
+    starts = list(range(0, len(events), 1500))
+    vres = vf.pmap(lambda i: c.validate("PkgDiffTrace.tla", "PkgDiffTrace.cfg", events[i:i + 1500], case_of=case_of), starts, jobs=4)
+    hist, rejected = {}, set()
+    for i0, r in zip(starts, vres):
+        for (i, ev, v) in r["bad"] + [(i, ev, "kf:" + k) for (i, ev, k) in r["kf"]]:
+            hist[v] = hist.get(v, 0) + 1
+            rejected.add(i0 + i - 1)
+    c.cov["verdicts"] = dict(hist, ok=len(events) - len(rejected))
+    good = [e for k, e in enumerate(events) if k not in rejected and e["removed"] and len(e["changedListed"]) >= 2] or \
+           [e for k, e in enumerate(events) if k not in rejected and len(e["changedListed"]) >= 2]
+    if good:
+        selftest(c, good[0])
+    elif not c.violations:
+        vf.infra("no accepted run suitable for the trace-specification self-test")
 
+    mark("validation")
     th.join()
+    mark("waiting for the models (they run beside the campaign)")
+    c.cov["phase_s"] = phase
     if merr:
         raise merr[0]
     findings = []
@@ -198,7 +248,7 @@ def main():
     c.cov["rule"] = ("invocations `abipkgdiff d1 d2` on directories of real DSOs: %s of the %d invocations of the model (TLC generator: 3 binaries x "
                      "{absent, v1, v2, v3} x both packages x {one directory, two directories}) plus %d random packages of 4-8 binaries over up to 4 "
                      "directories; per-pair facts = abidiff on the two builds; non-trivial = the pair of packages shows at least two of "
-                     "{removed binary, added binary, changed pair, clean pair}" % ("all" if c.thorough else "a seeded sample of 1000", len(space), nrand))
+                     "{removed binary, added binary, changed pair, clean pair}" % ("all" if c.thorough else "a seeded sample of 800", len(space), nrand))
     for e in [e for e in events if len(kinds(e)) >= 3][:3] + [e for e in events if e["src"] == "random"][:1]:
         c.sample(e)
     c.assumptions += ["abidiff (same build) on the two builds of a binary is the per-pair fact; its nine verdicts equal PkgDiff!DefaultPairBits (checked)",
